@@ -21,6 +21,7 @@ import (
 // error; whatever happens, every interface slot of the target must hold a value whose dynamic
 // type implements the slot's static type (no type confusion through unsafe writes).
 type exNamedStr string
+type exZone string
 type exEmpty interface{}
 type exIntList []int
 type exStrMap map[string]string
@@ -90,6 +91,21 @@ var exotics = []exotic{
 	{"**RecBad after *RecBad", func() interface{} { return new(*exRecBad) }, func() interface{} { return new(*exRecBad) }, func() interface{} { return new(exRecBad) }},
 	{"*[]RecBad after *RecBad", func() interface{} { return new([]exRecBad) }, func() interface{} { return new([]exRecBad) }, func() interface{} { return new(exRecBad) }},
 	{"map[string]*RecBad after *RecBad", func() interface{} { return new(map[string]*exRecBad) }, func() interface{} { return new(map[string]*exRecBad) }, func() interface{} { return new(exRecBad) }},
+	{"struct{maps with three string-kinded key types}", func() interface{} {
+		return new(struct {
+			A map[string]exInner
+			B map[exNamedStr]exInner
+			C map[exZone][]int
+			D map[exNamedStr][]int
+		})
+	}, func() interface{} {
+		return new(struct {
+			A map[string]exInner
+			B map[string]exInner
+			C map[string][]int
+			D map[string][]int
+		})
+	}, nil},
 }
 
 // printNorm prints a value without type names, maps sorted by key.
@@ -185,10 +201,13 @@ func integrity(v reflect.Value, path string) string {
 	return ""
 }
 
-func exoticUnfold(pre, target interface{}, evs []event) string {
+func exoticUnfold(pre, target interface{}, evs []event, cache bool) string {
 	u, err := gotype.NewUnfolder(nil)
 	if err != nil {
 		return "SETUPERR"
+	}
+	if cache {
+		u.EnableKeyCache(4)
 	}
 	if pre != nil {
 		_ = u.SetTarget(pre) // an earlier target of this Unfolder (refused or not)
@@ -219,9 +238,10 @@ func exoticRun(idx int, evs []event) string {
 		if x.pre != nil {
 			pre = x.pre()
 		}
-		res = exoticUnfold(pre, x.target(), evs)
+		// half of the cases unfold the hand-written target with the key cache on (the twin never has it)
+		res = exoticUnfold(pre, x.target(), evs, len(evs)%2 == 0)
 		if x.twin != nil && !strings.HasPrefix(res, "CORRUPT") {
-			tw := exoticUnfold(nil, x.twin(), evs)
+			tw := exoticUnfold(nil, x.twin(), evs, false)
 			if tw != res {
 				res += " ## TWIN " + strings.ReplaceAll(tw, " ", "_")
 			}
